@@ -174,4 +174,6 @@ theorem only_success_creates {h : Hints} {s s' : State} (hreach : Reachable s) {
   intro hc
   exact hn (hnn hc).1
 
+example : sDone.nextTask = sAssigned.nextTask + 1 := by decide
+
 end BbRe.Properties.C07Sched
